@@ -464,6 +464,17 @@ READ_OPS = {"HasCollection", "ListCollections", "HasIndex", "ListIndexes", "Find
             "IterateDocs", "FindFirst", "Count", "Exists", "Derived", "Export"}
 
 
+EVENT_KEY_ORDER = ["op", "c", "name", "q", "upd", "id", "f", "j", "js", "ids", "docs", "path"]
+
+
+def canon_event(e):
+    """TLC prints record fields in no particular order; the families selected by regular expressions
+    (and the shape strata) need one."""
+    if not isinstance(e, dict):
+        return e
+    return {k: e[k] for k in EVENT_KEY_ORDER if k in e} | {k: e[k] for k in sorted(e) if k not in EVENT_KEY_ORDER}
+
+
 def parse_emission(out):
     """STATE / EVENT lines printed by MC_L1 (JSON strings containing JSON)."""
     states, events = [], []
@@ -476,10 +487,11 @@ def parse_emission(out):
             kind, payload = txt.split(" ", 1)
             obj = json.loads(payload)
             if kind == "STATE":
-                if obj["hist"] not in states:      # several workers may report the same state
-                    states.append(obj["hist"])
+                hist = [canon_event(x) for x in obj["hist"]]
+                if hist not in states:      # several workers may report the same state
+                    states.append(hist)
             else:
-                events.append(obj)
+                events.append(canon_event(obj))
     return states, events
 
 
@@ -500,7 +512,7 @@ def emission(ctx, st):
         ctx.states += c["distinct"]
         ctx.transitions += c["generated"]
         ctx.log("MC %s/%s: %d distinct states, %d generated (cached model run)" % (st["module"], cfgname, c["distinct"], c["generated"]))
-        return c["states"], c["events"]
+        return [[canon_event(x) for x in h] for h in c["states"]], [canon_event(e) for e in c["events"]]
     r = stage_mc(ctx, dict(st, kind="mc"))
     states, events = parse_emission(r["out"])
     if not states or not events:
@@ -770,6 +782,8 @@ def stage_lin(ctx, st):
             "-backends", st.get("backends", "rotate"), "-maxg", str(st.get("maxg", 4)), "-ops", str(st.get("ops", 3)), "-par", "4"]
     if st.get("gated"):
         args.append("-gated")
+    if st.get("raw"):
+        args.append("-raw")
     if st.get("sched") or st.get("sched_sim"):
         # behaviours of CloverConc generated by TLC, replayed on the real code with gates at the
         # store's Begin and Commit / Rollback.  Exhaustive emissions are cached (they depend on spec/
